@@ -30,6 +30,17 @@ pub fn words_of_ones(ones: &[u64], nbits: u64) -> Vec<u64> {
     w
 }
 
+/// Each 64-bit word as four 16-bit integers, low quarter first (TLC integers are 32-bit).
+pub fn quarters_json(words: &[u64]) -> Value {
+    let mut out = Vec::with_capacity(words.len() * 4);
+    for &w in words {
+        for q in 0..4 {
+            out.push(json!((w >> (16 * q)) & 0xFFFF));
+        }
+    }
+    Value::Array(out)
+}
+
 pub fn bytes_json(b: &[u8]) -> Value {
     Value::Array(b.iter().map(|&x| json!(x)).collect())
 }
@@ -62,6 +73,8 @@ pub struct Doc {
     /// (start, end_exclusive, kind) of every value and key, in document order of their start
     pub spans: Vec<(usize, usize, u8)>,
     pub family: &'static str,
+    /// nesting depth of the "deep" family's bracket chain (0 for the other families)
+    pub chain: usize,
 }
 
 #[derive(Clone, Copy)]
@@ -187,7 +200,7 @@ impl Gen<'_> {
                 1 => s.push('-'),
                 _ => {}
             }
-            for _ in 0..r.range(1, 3) {
+            for _ in 0..r.range(1, 2) {
                 s.push((b'0' + r.below(10) as u8) as char);
             }
         }
@@ -247,10 +260,10 @@ impl Gen<'_> {
     }
 }
 
-fn finish(g: Gen<'_>, family: &'static str) -> Doc {
+fn finish(g: Gen<'_>, family: &'static str, chain: usize) -> Doc {
     let mut spans = g.spans;
     spans.sort();
-    Doc { bytes: g.out, spans, family }
+    Doc { bytes: g.out, spans, family, chain }
 }
 
 /// One valid JSON document from one of several families (sizes chosen to cross the 16/32/64
@@ -268,6 +281,7 @@ pub fn gen_doc(r: &mut Rng, max_bytes: usize) -> Doc {
         _ => ("pretty", Style { ws: 8, max_children: 5, max_str: 12, nasty: 2 }, 200, 5),
     };
     let mut g = Gen { r, out: vec![], spans: vec![], st, budget };
+    let mut chain = 0usize;
     g.ws();
     match family {
         "wide" => {
@@ -297,6 +311,7 @@ pub fn gen_doc(r: &mut Rng, max_bytes: usize) -> Doc {
         "deep" => {
             let d = *g.r.pick(&[1u64, 2, 15, 16, 17, 31, 32, 33, 64, 65, 130, 300]);
             let d = d.min((max_bytes / 8) as u64).max(1);
+            chain = d as usize;
             let mut closers: Vec<(usize, u8)> = vec![];
             for _ in 0..d {
                 let idx = g.spans.len();
@@ -336,5 +351,5 @@ pub fn gen_doc(r: &mut Rng, max_bytes: usize) -> Doc {
         _ => g.value(depth),
     }
     g.ws();
-    finish(g, family)
+    finish(g, family, chain)
 }
